@@ -128,7 +128,7 @@ func (w *workload) genBlock(r *rand.Rand, era int, h uint64, prev map[string][]b
 	case "big", "nearbig":
 		// one huge write set: LSS + HSS copies of n values of v bytes each plus the tree nodes = a commit batch well above
 		// (big) or just below (nearbig) 1 MiB
-		n, v := 900+r.IntN(700), 800+r.IntN(200)
+		n, v := 700+r.IntN(300), 800+r.IntN(200)
 		if size == "nearbig" {
 			n, v = 420+r.IntN(60), 900
 		}
@@ -215,14 +215,24 @@ func newWorkload(seed, index uint64) *workload {
 	nKeys := 24 + r.IntN(40)
 	nBlocks := uint64(3 + r.IntN(6))
 	sizes := map[uint64]string{}
-	switch k := r.IntN(20); {
-	case k < 3:
+	// the first workloads of a run are fixed so that every run has a rollback and a big block; the rest is drawn
+	k := r.IntN(20)
+	switch {
+	case index == 0:
+		k = 5
+	case index == 1 && seed%2 == 1:
+		k = 0
+	case index == 1:
+		k = 1
+	}
+	switch {
+	case k < 1:
 		w.kind, nBlocks = "big", uint64(2+r.IntN(3))
 		sizes[uint64(1+r.IntN(int(nBlocks)))] = "big"
-	case k < 4:
+	case k < 2:
 		w.kind, nBlocks = "nearbig", uint64(2+r.IntN(3))
 		sizes[uint64(1+r.IntN(int(nBlocks)))] = "nearbig"
-	case k < 9:
+	case k < 7:
 		w.kind = "rollback"
 	default:
 		w.kind = "plain"
@@ -662,7 +672,8 @@ type phase struct {
 	rollback                 *[2]uint64 // inside Rollback(): {old tip, target}
 	inOpen                   bool       // inside pebble.Open of a restart
 	window                   int
-	sinceReturn              int // file-system operations since the last Commit() returned
+	sinceReturn              int // file-system operations since the last Commit()/Rollback() returned
+	sinceCall                int // file-system operations since the last Commit()/Rollback() was called
 }
 
 type runner struct {
@@ -674,8 +685,9 @@ type runner struct {
 	pmu sync.Mutex
 	ph  phase
 
-	every      bool    // crash at every operation
-	pIn, pOut  float64 // otherwise: probability inside / outside a Commit() or Rollback() call
+	every      bool // crash at every operation
+	stride     int  // otherwise: see hook
+	offset     int
 	rng        *rand.Rand
 	states     []*crashState
 	firstOp    map[int]int
@@ -699,6 +711,7 @@ func (r *runner) set(f func(p *phase)) {
 func (r *runner) hook(op crashfs.Op) {
 	r.pmu.Lock()
 	r.ph.sinceReturn++
+	r.ph.sinceCall++
 	ph := r.ph
 	r.pmu.Unlock()
 	r.nOps++
@@ -716,16 +729,10 @@ func (r *runner) hook(op crashfs.Op) {
 		return
 	}
 	if !r.every {
-		// sampled: operations inside Commit()/Rollback() calls with pIn, the first operations after a call returned always
-		// (a crash right after Commit() returns), the rest with pOut
-		p := r.pOut
-		if ph.inCall {
-			p = r.pIn
-		}
-		if ph.rollback != nil || (!ph.inCall && ph.sinceReturn <= 4) {
-			p = 1
-		}
-		if r.rng.Float64() >= p {
+		// thinned: every operation of a Rollback(), the first 4 operations of every Commit() call, the first 3 after it
+		// returned (a crash right after Commit() returns), and every stride-th operation (seeded offset) of the rest
+		take := ph.rollback != nil || (ph.inCall && ph.sinceCall <= 4) || (!ph.inCall && ph.sinceReturn <= 3) || op.Index%r.stride == r.offset
+		if !take {
 			return
 		}
 	}
@@ -821,7 +828,7 @@ func play(w *workload, r *runner) error {
 			if err != nil {
 				return fmt.Errorf("block %d: %v", s.h, err)
 			}
-			r.set(func(p *phase) { p.called, p.inCall, p.window = s.h, true, p.window+1 })
+			r.set(func(p *phase) { p.called, p.inCall, p.window, p.sinceCall = s.h, true, p.window+1, 0 })
 			root, e := st.Commit()
 			r.set(func(p *phase) { p.returned, p.inCall, p.sinceReturn = s.h, false, 0 })
 			if e != nil {
@@ -858,7 +865,9 @@ func play(w *workload, r *runner) error {
 			if err != nil {
 				return err
 			}
-			r.set(func(p *phase) { p.rollback, p.inCall, p.window = &[2]uint64{tip, s.h}, true, p.window+1 })
+			r.set(func(p *phase) {
+				p.rollback, p.inCall, p.window, p.sinceCall = &[2]uint64{tip, s.h}, true, p.window+1, 0
+			})
 			e := st.Rollback(s.h)
 			r.set(func(p *phase) {
 				p.rollback, p.inCall, p.sinceReturn = nil, false, 0
@@ -906,7 +915,7 @@ func TestC09Crash(t *testing.T) {
 	if v, err := strconv.Atoi(os.Getenv("VERIF_CHECKS")); err == nil && v > 0 {
 		nWorkloads = v
 	}
-	budget := 75 * time.Second
+	budget := max(75*time.Second, min(15*time.Minute, time.Duration(nWorkloads)*6*time.Second))
 	if v, err := strconv.Atoi(os.Getenv("VERIF_C09_BUDGET_S")); err == nil && v > 0 {
 		budget = time.Duration(v) * time.Second
 	}
@@ -930,8 +939,10 @@ func TestC09Crash(t *testing.T) {
 		}
 		n := dry.nOps
 		totalOps += n
-		r := &runner{w: w, rec: rec, every: n <= everyMax, pIn: min(1, 90/float64(max(dry.nIn, 1))), pOut: min(1, 60/float64(max(n-dry.nIn, 1))),
+		// big write sets make every crash state expensive to verify: they are always thinned
+		r := &runner{w: w, rec: rec, every: n <= everyMax && w.kind != "big" && w.kind != "nearbig", stride: max(1, n/25),
 			rng: rand.New(rand.NewPCG(seed, 1000+uint64(i))), firstOp: map[int]int{}, lastOp: map[int]int{}, maxStates: 6000}
+		r.offset = r.rng.IntN(r.stride)
 		if r.every {
 			everyN++
 		} else {
@@ -950,7 +961,7 @@ func TestC09Crash(t *testing.T) {
 			s.c.Done(s.partial && (strictlyInside || s.sstOpen))
 		}
 		rec.Note(fmt.Sprintf("workload-%d", i), fmt.Sprintf("%s: dry-run ops=%d (inside Commit/Rollback calls %d), crash states examined=%d in %.1fs, mode=%s", w, n, dry.nIn, len(r.states), r.verifyTime.Seconds(),
-			map[bool]string{true: "every-operation", false: "calls+after-return+sample"}[r.every]))
+			map[bool]string{true: "every-operation", false: "thinned(call-starts+after-return+stride)"}[r.every]))
 	}
 	rec.Note("summary", fmt.Sprintf("seed=%d workloads=%v (every-op=%d sampled=%d) dry-run fs-operations=%d wall=%.1fs", seed, kinds, everyN, sampledN, totalOps, time.Since(start).Seconds()))
 }
